@@ -761,7 +761,11 @@ use std::sync::{Arc, Mutex};
 /// Run one `lace watch` session: save each source in turn over the watched file and collect the
 /// verdict of every re-check (`ok` / `diag` / `none` if no re-check was observed).
 /// `stack`: 0 = extension off, 1 = `watch w.asm -f stack`, 2 = `-f stack watch w.asm`
-fn watch_session(dir: &Path, sources: &[String], stack: u8) -> Vec<String> {
+/// `same_stat`: each new version replaces the watched file by a rename of a complete file that
+/// has the same modification time as the version it replaces (and, when the generator padded the
+/// sources, the same length) — what `cp -p`, `rsync -t` or a build step do; the metadata of the
+/// file then says nothing about whether its contents changed.
+fn watch_session(dir: &Path, sources: &[String], stack: u8, same_stat: bool) -> Vec<String> {
     let file = dir.join("w.asm");
     std::fs::write(&file, "halt\n").unwrap();
     let args = match stack {
@@ -802,7 +806,22 @@ fn watch_session(dir: &Path, sources: &[String], stack: u8) -> Vec<String> {
     let mut verdicts = Vec::new();
     for src in sources {
         let mark = buf.lock().unwrap().len();
-        std::fs::write(&file, src).unwrap();
+        if same_stat {
+            let mtime = std::fs::metadata(&file).and_then(|m| m.modified()).ok();
+            // staged OUTSIDE the watched folder (lace does not re-check on a rename inside it)
+            let stage = dir.with_extension("stage");
+            let _ = std::fs::create_dir_all(&stage);
+            let tmp = stage.join("w.asm");
+            std::fs::write(&tmp, src).unwrap();
+            if let Some(t) = mtime {
+                if let Ok(f) = std::fs::OpenOptions::new().write(true).open(&tmp) {
+                    let _ = f.set_modified(t);
+                }
+            }
+            std::fs::rename(&tmp, &file).unwrap();
+        } else {
+            std::fs::write(&file, src).unwrap();
+        }
         // a re-check is announced by "Re-checking"; its verdict follows; events may be delivered
         // twice (truncate + write), so wait for quiet and take the last verdict
         let t0 = Instant::now();
@@ -833,6 +852,7 @@ fn watch_session(dir: &Path, sources: &[String], stack: u8) -> Vec<String> {
     let _ = child.kill();
     let _ = child.wait();
     let _ = reader.join();
+    let _ = std::fs::remove_dir_all(dir.with_extension("stage"));
     verdicts
 }
 
@@ -855,8 +875,10 @@ pub fn run_c19w(o: &crate::Opts) {
     let mut sink = crate::Sink::new(o);
     let tmp = TmpDir::new(&format!("c19w-{}", o.shard));
     let dir = tmp.0.clone();
-    let run_one = |dir: &Path, stack: u8, srcs: &[String]| -> String {
-        let w = watch_session(dir, srcs, stack);
+    // `code` = flag placement (0 off, 1 after, 2 before the subcommand) + 4 × delivery mode
+    let run_one = |dir: &Path, code: u8, srcs: &[String]| -> String {
+        let stack = code % 4;
+        let w = watch_session(dir, srcs, stack, code / 4 == 1);
         let fresh: Vec<String> = srcs.iter().map(|s| check_verdict(dir, s, stack != 0)).collect();
         format!("watch={} fresh={}", w.join(","), fresh.join(","))
     };
@@ -904,9 +926,19 @@ pub fn run_c19w(o: &crate::Opts) {
     let mut n: u64 = 0;
     for _ in 0..sessions {
         let len = rng.range(3, 6) as usize;
-        let srcs: Vec<String> = (0..len).map(|_| (*rng.pick(&pool)).to_string()).collect();
+        let mut srcs: Vec<String> = (0..len).map(|_| (*rng.pick(&pool)).to_string()).collect();
         // the flag: absent, after the subcommand, before it
-        let stack = ((o.shard as u64 + n) % 3) as u8;
+        let mut stack = ((o.shard as u64 + n) % 3) as u8;
+        // every other session: versions of equal length delivered by rename with the old mtime
+        if (o.shard as u64 / 3 + n) % 2 == 1 {
+            let max = srcs.iter().map(|s| s.len()).max().unwrap_or(0) + 2;
+            for s in srcs.iter_mut() {
+                let k = max - s.len();
+                s.push(';');
+                s.push_str(&"p".repeat(k - 1));
+            }
+            stack += 4;
+        }
         let obs = run_one(&dir, stack, &srcs);
         sink.put(&req_of(stack, &srcs), &obs);
         n += 1;
